@@ -5,6 +5,7 @@ import zlib
 _L = threading.Lock()
 _T: dict = {}
 OP_FAULT = [None]  # optional callable run at the start of every operator / truth test (fault injection into operator nodes)
+YIELD_IN_PICKLE = [0]  # seconds to sleep inside Sym.__reduce__ (0 = off)
 YIELD_IN_BOOL = [0]  # seconds to sleep inside Sym.__bool__ (0 = off)
 
 
@@ -117,6 +118,11 @@ class Sym:
         return self
 
     def __reduce__(self):
+        if YIELD_IN_PICKLE[0]:
+            # concurrency workloads: writing a value to a cache file takes time (a pre-emption point inside pickling)
+            import time
+
+            time.sleep(YIELD_IN_PICKLE[0])
         return (_rebuild, (self.k,))
 
     def __getitem__(self, i):
